@@ -178,7 +178,7 @@ def both(f_sparse, f_dense, what, approx=False, expect_type=None, same_class=Tru
 @st.composite
 def case_strategy(draw):
     op = draw(st.sampled_from(["ctor", "ctor", "sparsefn", "blockgrid", "spdiag", "get1", "get2", "get2", "set1", "set2", "set2", "bin", "bin",
-                               "scal", "unary", "inplace", "setV", "resize", "blas", "blas", "foreign"]))
+                               "scal", "unary", "inplace", "setV", "resize", "blas", "blas", "blas", "blas", "foreign"]))
     c = dict(op=op)
     if op == "ctor":
         tc = draw(st.sampled_from("ddz"))
@@ -275,16 +275,16 @@ def case_strategy(draw):
         L = A["m"] * A["n"]
         c.update(A=A, size=draw(st.sampled_from([(L, 1), (1, L), (A["n"], A["m"]), (2, 2), (2, 3), (0, 0)])))
     if op == "blas":
-        f = draw(st.sampled_from(["axpy", "gemv", "gemm", "gemm", "syrk", "symv"]))
+        f = draw(st.sampled_from(["axpy", "gemv", "gemv", "gemm", "gemm", "syrk", "symv"]))
         tc = draw(st.sampled_from("dd" + ("z" if f in ("axpy", "gemv", "gemm") else "")))
         c.update(f=f, tc=tc, m=draw(st.integers(0, 3)), n=draw(st.integers(0, 3)), k=draw(st.integers(0, 3)),
                  spA=draw(st.booleans()), spB=draw(st.booleans()), spC=draw(st.booleans()),
                  transA=draw(st.sampled_from("NNTC")), transB=draw(st.sampled_from("NNTC")),
                  alpha=draw(st.sampled_from([1.0, 1.0, -1.0, 0.5, 0.0, 2.0])), beta=draw(st.sampled_from([0.0, 1.0, 1.0, -1.0, 0.5])),
                  partial=draw(st.booleans()), seed=draw(st.integers(0, 10 ** 6)), uplo=draw(st.sampled_from("LU")))
-        if f in ("gemv", "symv") and draw(st.booleans()):
-            c.update(incx=draw(st.sampled_from([1, 2, -1, -2])), incy=draw(st.sampled_from([1, 2, -1, -2, -1])))
-        if f in ("gemv", "symv") and draw(st.booleans()):
+        if f in ("gemv", "symv") and draw(st.integers(0, 2)) > 0:
+            c.update(incx=draw(st.sampled_from([1, 2, -1, -2, -1])), incy=draw(st.sampled_from([1, 2, -1, -2, -1])))
+        if f in ("gemv", "symv") and draw(st.integers(0, 2)) > 0:
             # the operation on a submatrix: rows oi.., columns oj.. of a larger A (m, n, offsetA as in BLAS, ldA = A.size[0])
             c.update(sub=[draw(st.integers(0, 3)), draw(st.integers(0, 3)), draw(st.integers(0, 1)), draw(st.integers(0, 1))])
         if f == "gemv" and draw(st.booleans()):
